@@ -341,7 +341,9 @@ func do(h http.Handler, rq Req) (resp Resp) {
 		h.ServeHTTP(w, r)
 	}()
 	resp.Status = w.Code
-	resp.Header = w.Header()
+	// the headers as they stood when the status line went out: what a handler sets afterwards never
+	// reaches a client
+	resp.Header = w.Result().Header
 	resp.Body = w.Body.Bytes()
 	return resp
 }
